@@ -76,3 +76,18 @@ Theorem C08_refuted_queue_not_erased_on_removal :
   /\ q_deliv (qrun false [QAccept 7; QQueue 7; QClose 7; QAccept 7; QQueue 7; QFlush 7]) = [(2, 1); (2, 2)].
 Proof. exact q_refuted_without_erase. Qed.
 Print Assumptions C08_refuted_queue_not_erased_on_removal.
+
+(* Descriptors of files queued for a connection (Http::serveFile): in every history of queued writes, completed writes and
+   dropped connections, the files open on behalf of a connection are exactly the file writes still in its queue ... *)
+Theorem C08_open_files_are_the_queued_ones : forall h fd, f_files (frun true h) fd = count_true (f_queue (frun true h) fd).
+Proof. exact files_are_the_queued_ones. Qed.
+Print Assumptions C08_open_files_are_the_queued_ones.
+(* ... so none is left when the connection's queue is dropped (removePeer, a failed socket), whatever was pending *)
+Theorem C08_no_file_left_after_drop : forall h fd, f_files (fstep true (frun true h) (FDrop fd)) fd = 0.
+Proof. exact no_file_left_after_drop. Qed.
+Print Assumptions C08_no_file_left_after_drop.
+(* refuted for the pinned code, which closed a file only when it had been sent completely (fixed 57c2f35; the harness's
+   behaviour 's': a download abandoned after 17 bytes) *)
+Theorem C08_refuted_file_not_closed_on_drop : f_files (frun false [FQueue 7 false; FQueue 7 true; FSent 7; FDrop 7]) 7 = 1.
+Proof. exact file_leaks_without_close_on_drop. Qed.
+Print Assumptions C08_refuted_file_not_closed_on_drop.
